@@ -80,7 +80,7 @@ Lemma tet_guard_det v i j k l : tet_guard_off v (i, j, k, l) ->
   let '(p0, p1, p2, p3) := tet_pts Rops v (i, j, k, l) in tet_det p0 p1 p2 p3 <> 0.
 Proof.
   unfold tet_guard_off, tet_pts. generalize (getv Rops v i) (getv Rops v j) (getv Rops v k) (getv Rops v l). intros p0 p1 p2 p3 Hg.
-  apply Rltb_false in Hg. assert (E := eps52_pos). rewrite code_det in Hg. intros Z. rewrite Z, Ropp_0, Rabs_R0 in Hg. lra.
+  rewrite code_det in Hg. intros Z. apply Hg. rewrite Z. ring.
 Qed.
 Lemma tet_grad_of_affine v a b0 f t : tet_guard_off v t -> affine_on_tet v a b0 f t -> tet_grad1 Rops v f t = a.
 Proof.
@@ -115,9 +115,9 @@ Definition ex_v : list V3 := [(0, 0, 0); (1, 0, 0); (0, 1, 0); (0, 0, 1)].
 Definition ex_ts : list tet := [(0, 1, 2, 3)%nat].
 Lemma ex_guard : Forall (tet_guard_off ex_v) ex_ts.
 Proof.
-  repeat constructor. unfold tet_guard_off, tet_pts, ex_v, getv. cbn [nth]. apply Rltb_false.
+  repeat constructor. unfold tet_guard_off, tet_pts, ex_v, getv. cbn [nth].
   replace (dotR (subR (0, 0, 1) (0, 0, 0)) (crossR (subR (1, 0, 0) (0, 0, 0)) (subR (0, 0, 0) (0, 1, 0)))) with (-(1)) by (unfv; ring).
-  rewrite Rabs_Ropp, Rabs_R1. pose proof eps52_pos. unfold eps52, frac in *. cbn [div ofZ Rops] in *. lra.
+  lra.
 Qed.
 Lemma ex_nondeg : tet_nondeg ex_v ex_ts.
 Proof.
